@@ -3,7 +3,7 @@
 measure which checks catch it.
  1. in the worktree: demo.py exits 0 on clean source, 1 with patch.diff applied (then reverted)
  2. copy to /verif/seeded/<PROP>-<k>/ (patch.diff, demo.py, notes.txt)
- 3. apply to /repo, run ./check <PROP> (and the extra ones), record exit code + VIOLATION lines, undo
+ 3. apply to a scratch worktree of /repo HEAD, run VERIF_REPO=<wt> ./check <PROP> (and the extra ones), record the result
  4. write meta.json
 """
 import json, os, shutil, subprocess, sys, time
@@ -33,21 +33,27 @@ os.makedirs(dst, exist_ok=True)
 for f in ('patch.diff', 'demo.py', 'notes.txt'):
     if os.path.exists(os.path.join(src, f)):
         shutil.copy(os.path.join(src, f), os.path.join(dst, f))
-# run the checks against /repo with the change applied
-rc, out = sh(['git', '-C', '/repo', 'apply', os.path.join(dst, 'patch.diff')])
-if rc != 0:
-    print('does not apply to /repo', out)
-    sys.exit(3)
+# run the checks against a scratch worktree of /repo HEAD with the change applied (VERIF_REPO), so that /repo
+# itself is never touched while other work is going on; the worktree is removed afterwards
+SWT = '/tmp/seed_wt_%d' % os.getpid()
+subprocess.run(['git', '-C', '/repo', 'worktree', 'add', '-q', '--detach', SWT, 'HEAD'], check=True)
 results = {}
 try:
+    rc, out = sh(['git', '-C', SWT, 'apply', os.path.join(dst, 'patch.diff')])
+    if rc != 0:
+        print('does not apply to /repo HEAD', out)
+        meta['applies_to_repo_head'] = False
+        json.dump(meta, open(os.path.join(dst, 'meta.json'), 'w'), indent=1)
+        sys.exit(3)
+    envc = dict(os.environ, VERIF_REPO=SWT)
     for p in [prop] + extra:
         t0 = time.time()
-        rc, out = sh(['./check', p], cwd='/verif', timeout=3000)
+        rc, out = sh(['./check', p], cwd='/verif', env=envc, timeout=3000)
         viol = [l for l in out.splitlines() if l.startswith('VIOLATION') or 'obligation FAILED' in l]
         results[p] = {'exit': rc, 'caught': rc != 0, 'lines': [v[:300] for v in viol][:6], 'wall_s': round(time.time() - t0)}
         print(p, 'exit', rc, [v[:160] for v in viol][:4])
 finally:
-    subprocess.run(['git', '-C', '/repo', 'checkout', '--', '.'])
+    subprocess.run(['git', '-C', '/repo', 'worktree', 'remove', '--force', SWT])
 meta['checks'] = results
 meta['what_it_needs'] = open(os.path.join(dst, 'notes.txt')).read()[:1500] if os.path.exists(os.path.join(dst, 'notes.txt')) else ''
 meta['ran'] = f'tools/seeded.py {prop} {wt} {k} {" ".join(extra)}'
